@@ -315,6 +315,8 @@ class BuiltinsBase:
         """remove element idx (assumed in range) shifting the tail down"""
         if isinstance(v.n, int) and idx.conc():
             items = list(v.items[: v.n])
+            if not (0 <= idx.v < len(items)):
+                return v, self.junk_like(v)      # out of range: the caller has already recorded the panic obligation
             x = items.pop(idx.v)
             return Vc(items, v.n - 1, v.kind), x
         x = self.vec_get(v, idx, check=False)
